@@ -97,7 +97,7 @@ class Operator(Node):
             raise ValueError(f"{self.content} is not a known operator")
 
     def is_reflective(self) -> bool:
-        if self.content in "+*":
+        if self.content in ("+", "*"):
             return True
         elif self.content in "-/%" or self.content == "**":
             return False
@@ -556,6 +556,87 @@ def search_for_output_in_tree(tree: Expression, output: Variable) -> bool:
     return True
 
 
+def merge_constant(first_operator: str, const: str, operator: str, number: str) -> str | None:
+    """
+    Merge 2 successive operations with a constant operand on the same variable,
+    `v first_operator= const; v operator= number`, into `v first_operator= result`
+
+    :return: Content of the resulting constant, None if the operations cannot be merged
+    """
+    if first_operator == "":
+        if operator == "":
+            return None
+        return fold_constants(const, operator, number)
+    if first_operator in ("+", "-") and operator in ("+", "-"):
+        # v - const + number = v - (const - number)
+        return fold_constants(const, "+" if first_operator == operator else "-", number)
+    if first_operator == "*" and operator == "*":
+        return fold_constants(const, "*", number)
+    if first_operator == "/" and operator == "/" and is_number(const) and is_number(number):
+        # Rounding twice is rounding once only for positive divisors
+        if int(const) > 0 and int(number) > 0 and int(const) * int(number) < 2**31:
+            return str(int(const) * int(number))
+    return None
+
+
+def commutative_kind(operator: str) -> str | None:
+    """Operations of the same kind ("+" for + and -, "*" for *) on a variable can be reordered"""
+    if operator in ("+", "-"):
+        return "+"
+    if operator == "*":
+        return "*"
+    return None
+
+
+def merge_constants(operations: list[tuple[Variable, Operator, Number]]) -> list[tuple[Variable, Operator, Number]]:
+    """
+    Merge the constant operands in successive operations on the same variable
+    (`v = a; v += 2; v += b; v -= 5` becomes `v = a; v -= 3; v += b`)
+    and delete the operations that do nothing (`v += 0`, `v *= 1`)
+
+    A constant is merged into the closest constant operand before it, across operations that can be reordered:
+    only additions/subtractions, or only multiplications, of something that is not the variable itself
+
+    :param operations: Operations on the same variable
+    :return: New list of operations
+    """
+    new_operations: list[tuple[Variable, Operator, Number]] = []
+    anchor = -1
+    """Index (in new_operations) of the operation whose constant operand takes in the next constants"""
+    crossed: str | None = None
+    """Kind ("+" or "*") of the operations with a non-constant operand after the anchor"""
+    for var, op, num in operations:
+        kind = commutative_kind(op.content)
+        if not isinstance(num, Constant):
+            if anchor != -1:
+                anchor_operator = new_operations[anchor][1].content
+                if (kind is None
+                        or num.content == var.content
+                        or crossed not in (None, kind)
+                        or (anchor_operator != "" and commutative_kind(anchor_operator) != kind)):
+                    anchor = -1
+                else:
+                    crossed = kind
+            new_operations.append((var, op, num))
+            continue
+        if anchor != -1 and crossed in (None, kind):
+            anchor_var, anchor_op, const = new_operations[anchor]
+            merged = merge_constant(
+                anchor_op.content, const.content, op.content, num.content)
+            if merged is not None:
+                new_operations[anchor] = (
+                    anchor_var, anchor_op, Constant(merged, const.token))
+                continue
+        anchor = len(new_operations)
+        crossed = None
+        new_operations.append((var, op, num))
+
+    return [(var, op, num) for var, op, num in new_operations
+            if not (isinstance(num, Constant) and (
+                (op.content in ("+", "-") and float(num.content) == 0)
+                or (op.content in ("*", "/") and float(num.content) == 1)))]
+
+
 def optimize_const(operations: list[tuple[Variable, Operator, Number]]) -> list[tuple[Variable, Operator, Number]]:
     temp_operations: list[tuple[Variable, Operator, Number]] = []
     new_operations: list[tuple[Variable, Operator, Number]] = []
@@ -569,84 +650,23 @@ def optimize_const(operations: list[tuple[Variable, Operator, Number]]) -> list[
         is_after_equal = len(
             temp_operations) == 1 and temp_operations[0][1].content == ""
         if is_same_var and (is_same_op_group or is_after_equal):
-            if (temp_operations[0][1].content != ""
+            if (not is_after_equal
                     or not op.is_reflective()
                     or not isinstance(temp_operations[0][2], Constant)
                     # or float(num.content).is_integer()
-                    or isinstance(num, Constant)):
+                    or isinstance(num, Constant)
+                    or num.content == var.content):
                 temp_operations.append((var, op, num))
                 continue
+            # `v = constant; v += a` becomes `v = a; v += constant`
             temp_operations.append((var, op, temp_operations[0][2]))
             temp_operations[0] = (var, temp_operations[0][1], num)
             continue
 
-        saved_operation = (var, op, num)
+        new_operations.extend(merge_constants(temp_operations))
+        temp_operations = [(var, op, num)]
 
-        first_const_index = -1
-        indices_to_delete: list[int] = []
-        for i, (var, op, num) in enumerate(temp_operations):
-            if not isinstance(num, Constant):
-                continue
-            if first_const_index == -1:
-                first_const_index = i
-                continue
-            const = temp_operations[first_const_index][2]
-            temp_operations[first_const_index] = (temp_operations[first_const_index][0], temp_operations[first_const_index][1], Constant(
-                eval_expr(const.content + op.content + " " + num.content), const.token))
-            indices_to_delete.append(i)
-
-            if first_const_index != -1:
-                if temp_operations[first_const_index][1].content == "*%" and float(temp_operations[first_const_index][2].content) == 1:
-                    indices_to_delete.insert(0, first_const_index)
-                if temp_operations[first_const_index][1].content == "+-" and float(temp_operations[first_const_index][2].content) == 0:
-                    indices_to_delete.insert(0, first_const_index)
-
-        for i in reversed(indices_to_delete):
-            del temp_operations[i]
-
-        new_operations.extend(temp_operations)
-        temp_operations = [saved_operation]
-
-    if temp_operations:
-        first_const_index = -1
-        indices_to_delete: list[int] = []  # type: ignore[no-redef]
-        for i, (var, op, num) in enumerate(temp_operations):
-            if not isinstance(num, Constant):
-                continue
-            if first_const_index == -1:
-                first_const_index = i
-                continue
-            const = temp_operations[first_const_index][2]
-            first_const_op = temp_operations[first_const_index][1]
-
-            if first_const_op.content == "%":
-                continue
-
-            def __eval(expr: str):
-                temp_operations[first_const_index] = (temp_operations[first_const_index][0], temp_operations[first_const_index][1], Constant(
-                    eval_expr(expr), const.token))
-            if first_const_op.content == "*":
-                __eval(const.content + op.content + " " + num.content)
-            elif first_const_op.content == "/":
-                __eval(const.content + ("*" if op.content ==
-                                        "/" else "/") + " " + num.content)
-            elif first_const_op.content in "+-":
-                __eval(first_const_op.content + const.content +
-                       op.content + " " + num.content)
-            elif first_const_op.content == "":
-                __eval(const.content + op.content + " " + num.content)
-            else:
-                raise Exception("Unreachable")
-            indices_to_delete.append(i)
-        if first_const_index != -1:
-            if temp_operations[first_const_index][1].content in ("*", "/") and float(temp_operations[first_const_index][2].content) == 1:
-                indices_to_delete.insert(0, first_const_index)
-            elif temp_operations[first_const_index][1].content in ("+", "-") and float(temp_operations[first_const_index][2].content) == 0:
-                indices_to_delete.insert(0, first_const_index)
-
-        for i in reversed(indices_to_delete):
-            del temp_operations[i]
-        new_operations.extend(temp_operations)
+    new_operations.extend(merge_constants(temp_operations))
     return new_operations
 
 
